@@ -186,7 +186,7 @@ def replay_logdet(spec_name, direction, P, x, c=None, kappa=None):
 REPLAYS = {"roundtrip": replay_roundtrip, "logdet": replay_logdet}
 
 
-def box_constraints(spec, var, cvar=None, big=50, sep=Fraction(1, 20)):
+def box_constraints(spec, var, cvar=None, big=8, sep=Fraction(1, 20)):
     """well-conditioned region used only while searching for replayable witnesses"""
     out = []
     for a in list(spec.P_sym) + [var] + ([cvar] if cvar is not None else []):
@@ -223,6 +223,8 @@ def witness_search(spec, kind, direction, case, build, var, acc, name, first=Non
         eqs = [toz(g) for g in goals if _is_eq(g)]
         for strong in (True, False):
             for boxed in (True, False):
+                if not boxed and (ctx.exp_atoms or ctx.log_arg):
+                    continue  # float saturation of exp/tanh outside the box would be mistaken for an algebraic error
                 extra = box_constraints(spec, var, spec.c_sym) if boxed else []
                 if strong:
                     if not eqs:
@@ -261,6 +263,17 @@ def witness_search(spec, kind, direction, case, build, var, acc, name, first=Non
 # ----------------------------------------------------------------------------------------
 # C01 obligations
 # ----------------------------------------------------------------------------------------
+S_stats = {"rewrites": 0, "rewrites_tried": 0}
+
+
+def prove_staged(ctx, assume, okk, et, qt):
+    if okk is not True:
+        st, m = check(ctx, assume, toz(okk), name="", timeout=10_000)
+        if st != "unsat":
+            return st, m
+    return prove_eq(ctx, assume, et, qt, name="", timeout=10_000)
+
+
 def _stage(spec, case, direction, concrete=False, ctx=None, nocut=False):
     """interprets stage 1 (a), lemma, cut, stage 2 (b) and the `_and_log_det` variant of a.
     returns dict with everything needed for goals"""
@@ -283,8 +296,52 @@ def _stage(spec, case, direction, concrete=False, ctx=None, nocut=False):
         assume = assume + seeds
         DEC.add(*seeds)
     args = list(Psym) + [var] + ([spec.c_sym] if spec.cond_shape is not None else [])
+    staged = "staged" in spec.tags
+    pool = [np.asarray(var, dtype=object)]
+    if staged:
+        def record(I_, i, carry):
+            for a_ in carry:
+                if np.shape(a_) == np.shape(var) and a_.dtype == object and not any(a_ is q for q in pool):
+                    pool.append(a_)
+            return carry
+        I.hooks["scan_iter"] = record
     mid = I.run(ja, *args)[0]
+    if staged:
+        pool.append(mid)
+        I.hooks.pop("scan_iter", None)
     mid2, ld = I.run(jal, *args)
+    if staged:
+        # staged, solver-justified rewriting: after every scan iteration of stage 2 each carried element that is
+        # provably equal to an intermediate value of stage 1 is replaced by it (one `unsat` per substitution)
+        def canon(I_, i, carry):
+            out = []
+            for a_ in carry:
+                if np.shape(a_) != np.shape(var) or a_.dtype != object:
+                    out.append(a_)
+                    continue
+                a2 = a_.copy()
+                for idx in np.ndindex(a2.shape):
+                    e = a2[idx]
+                    et = split(e)[0]
+                    if not is_z(et):
+                        continue
+                    if any(is_z(split(q[idx])[0]) and split(q[idx])[0].eq(et) for q in pool):
+                        continue
+                    for q in ([pool[0]] + list(reversed(pool[1:]))):
+                        qt = split(q[idx])[0]
+                        if not is_z(qt) or isinstance(q[idx], jx.P):
+                            continue
+                        okk = jx.band(split(e)[1], split(e)[2] == 0)
+                        g = z3.And(toz(okk), toreal(et) == toreal(qt))
+                        st_, _ = prove_staged(ctx, assume, okk, et, qt)
+                        S_stats["rewrites_tried"] += 1
+                        if st_ == "unsat":
+                            a2[idx] = qt
+                            S_stats["rewrites"] += 1
+                            break
+                out.append(a2)
+            return out
+        I.hooks["scan_iter"] = canon
     if case.lemma and not nocut:
         # staged cut: stage 2 is interpreted on fresh variables constrained by the (separately proved) image lemma
         lem_mid = [toz(l) for l in case.lemma(np.vectorize(lambda v: toreal(split(v)[0]), otypes=[object])(mid))]
@@ -316,7 +373,7 @@ def ob_roundtrip(spec_name, direction, case_name):
         return [rec(base, "error", detail=f"unsupported: {e}")]
     ctx, assume = S["ctx"], S["assume"]
     # vacuity twin: the case assumption must be satisfiable
-    st, _ = check(ctx, assume, z3.BoolVal(False), name="")
+    st, _ = check(ctx, assume, z3.BoolVal(False), name="", facts=False)
     vac = (st == "sat")
     if not vac:
         return [rec(base, "error", detail=f"vacuous case assumption ({st})", **acc.stats())]
@@ -455,7 +512,7 @@ def ob_logdet_fwd(spec_name, case_name):
                 Jalt.append(np.vectorize(lambda v: _subst_val(v, case.point), otypes=[object])(np.asarray(J2, dtype=object)))
     except jx.Unsupported as e:
         return [rec(base, "error", detail=f"unsupported: {e}")]
-    st, _ = check(ctx, assume, z3.BoolVal(False))
+    st, _ = check(ctx, assume, z3.BoolVal(False), facts=False)
     if st != "sat":
         return [rec(base, "error", detail=f"vacuous case assumption ({st})")]
     gs = goal_of(ctx, ld, J, Jalt if case.kink else ())
@@ -532,7 +589,7 @@ def ob_logdet_inv(spec_name, case_name):
         ctx, assume, ldi, ldf, sb = run()
     except jx.Unsupported as e:
         return [rec(base, "error", detail=f"unsupported: {e}")]
-    st, _ = check(ctx, assume, z3.BoolVal(False))
+    st, _ = check(ctx, assume, z3.BoolVal(False), facts=False)
     if st != "sat":
         return [rec(base, "error", detail=f"vacuous case assumption ({st})")]
     st, m, where = eq_goal(ctx, assume, ldi, np.vectorize(jx.neg, otypes=[object])(ldf), base, subst=sb)
